@@ -20,6 +20,12 @@ BUILTIN_CLASSES = {'dict', 'list', 'set', 'tuple', 'object', 'UserWarning',
                    'Exception', 'ValueError', 'KeyError'}
 
 
+def ast_copy_plain(n):
+    import copy as _c
+    m = ast.parse(ast.unparse(n), mode='eval').body
+    return m
+
+
 class Module:
     def __init__(self, name, relpath, src, ispkg):
         self.name, self.relpath, self.src, self.ispkg = name, relpath, src, ispkg
@@ -199,8 +205,16 @@ class Program:
                 if len(cand) == 1 and not rivals:
                     self.renamed[cand[0]] = k
                     fresh.remove(cand[0])
+            # a reference helper that created its result object itself may now be handed that object by its callers
+            # (one extra trailing parameter, every call site passes a fresh `T()`): read it in the reference form
+            for k in [k for k in table if k not in defs and k not in self.renamed.values()]:
+                cand = [d for d in fresh if arity(defs[d]) == len(table[k]) + 1]
+                if len(cand) == 1 and self._absorb_object_param(defs[cand[0]], cname is not None):
+                    self.renamed[cand[0]] = k
+                    fresh.remove(cand[0])
         self._undo_level_moves(by_rel)
         self._undo_factory_params(by_rel)
+        self._undo_setter_helpers(by_rel)
         self._undo_param_renames(by_rel)
         if not self.renamed:
             return
@@ -361,6 +375,122 @@ class Program:
                     for c in ast.iter_child_nodes(n):
                         c._parent = n
 
+    def _absorb_object_param(self, fn, is_method):
+        """fn(self, .., H) whose every call site passes a fresh constructor call `T()` with one and the same T for the last
+        parameter, and which returns that parameter (or nothing): make `H = T()` the first statement, drop the parameter,
+        let it `return H`, and drop the argument at the call sites (`h(T())` / `x = T(); h(x); ... x`).  True when done."""
+        a = fn.args
+        if a.vararg or a.kwarg or a.kwonlyargs or a.defaults or not a.args:
+            return False
+        pn = a.args[-1].arg
+        own = list(self._walk_own(fn))
+        rets = [n for n in own if isinstance(n, ast.Return)]
+        if any(r.value is not None and not (isinstance(r.value, ast.Name) and r.value.id == pn) for r in rets):
+            return False
+        sites = []
+        for mm in self.modules.values():
+            for c in ast.walk(mm.tree):
+                if isinstance(c, ast.Call):
+                    f = c.func
+                    callee = f.id if isinstance(f, ast.Name) else (f.attr if isinstance(f, ast.Attribute) else None)
+                    if callee == fn.name:
+                        sites.append(c)
+        if not sites:
+            return False
+        ctor = None
+        for c in sites:
+            if c.keywords or not c.args:
+                return False
+            e = c.args[-1]
+            if not (isinstance(e, ast.Call) and not e.args and not e.keywords and isinstance(e.func, (ast.Name, ast.Attribute))):
+                return False
+            t = ast.dump(e.func)
+            if ctor is not None and t != ast.dump(ctor.func):
+                return False
+            ctor = e
+        # rewrite
+        for c in sites:
+            c.args = c.args[:-1]
+        a.args = a.args[:-1]
+        mk = ast.Assign(targets=[ast.Name(id=pn, ctx=ast.Store())], value=ast_copy_plain(ctor))
+        d0 = 1 if fn.body and isinstance(fn.body[0], ast.Expr) and isinstance(getattr(fn.body[0], 'value', None), ast.Constant) else 0
+        ast.copy_location(mk, fn.body[d0] if len(fn.body) > d0 else fn)
+        ast.fix_missing_locations(mk)
+        fn.body.insert(d0, mk)
+        for r in rets:
+            if r.value is None:
+                r.value = ast.Name(id=pn, ctx=ast.Load())
+                ast.copy_location(r.value, r)
+        if not isinstance(fn.body[-1], ast.Return):
+            r = ast.Return(value=ast.Name(id=pn, ctx=ast.Load()))
+            ast.copy_location(r, fn.body[-1])
+            ast.fix_missing_locations(r)
+            fn.body.append(r)
+        for mm in self.modules.values():
+            for n_ in ast.walk(mm.tree):
+                for c_ in ast.iter_child_nodes(n_):
+                    c_._parent = n_
+        return True
+
+    def _undo_setter_helpers(self, by_rel):
+        """A module-level private helper of the reference tree that returned a value which every caller stored into a field of
+        the argument (`x.best = h(x)`) may be rewritten to store it itself (`h(x)`, ending in `x.best = value`).  The
+        model reads the second form as the first."""
+        for (rel, cname), table in self.PRIVATE_HELPERS.items():
+            m = by_rel.get(rel)
+            if m is None or cname is not None:
+                continue
+            for fn in [n for n in m.tree.body if isinstance(n, ast.FunctionDef)]:
+                if self.renamed.get(fn.name, fn.name) not in table:
+                    continue
+                a = fn.args
+                if a.vararg or a.kwarg or a.kwonlyargs or len(a.args) != 1:
+                    continue
+                prm = a.args[0].arg
+                own = list(self._walk_own(fn))
+                if any(isinstance(n, ast.Return) and n.value is not None for n in own):
+                    continue
+                stores = [n for n in own if isinstance(n, ast.Assign) and len(n.targets) == 1 and isinstance(n.targets[0], ast.Attribute)
+                          and isinstance(n.targets[0].value, ast.Name) and n.targets[0].value.id == prm]
+                other = [n for n in own if isinstance(n, ast.Attribute) and isinstance(n.ctx, (ast.Store, ast.Del))
+                         and isinstance(n.value, ast.Name) and n.value.id == prm]
+                if len(stores) != 1 or len(other) != 1 or fn.body[-1] is not stores[0]:
+                    continue
+                attr = stores[0].targets[0].attr
+                sites = []
+                ok = True
+                for mm in self.modules.values():
+                    for owner in ast.walk(mm.tree):
+                        for field in ('body', 'orelse', 'finalbody'):
+                            lst = getattr(owner, field, None)
+                            if not isinstance(lst, list):
+                                continue
+                            for st in lst:
+                                if not isinstance(st, ast.stmt):
+                                    continue
+                                for c in self._stmt_own_calls(st):
+                                    if isinstance(c.func, ast.Name) and c.func.id == fn.name:
+                                        if isinstance(st, ast.Expr) and st.value is c and len(c.args) == 1 and not c.keywords \
+                                                and isinstance(c.args[0], ast.Name):
+                                            sites.append((lst, st, c))
+                                        else:
+                                            ok = False
+                if not ok or not sites:
+                    continue
+                ret = ast.Return(value=stores[0].value)
+                ast.copy_location(ret, stores[0])
+                fn.body[-1] = ret
+                for lst, st, c in sites:
+                    new = ast.Assign(targets=[ast.Attribute(value=ast.Name(id=c.args[0].id, ctx=ast.Load()), attr=attr, ctx=ast.Store())], value=c)
+                    ast.copy_location(new, st)
+                    ast.fix_missing_locations(new)
+                    k = next(j for j, y in enumerate(lst) if y is st)
+                    lst[k] = new
+                for mm in self.modules.values():
+                    for n_ in ast.walk(mm.tree):
+                        for c_ in ast.iter_child_nodes(n_):
+                            c_._parent = n_
+
     def _undo_factory_params(self, by_rel):
         """A private helper of the reference tree that fills an object handed in by its caller (`h(D, ..)`, caller:
         `D = T(); h(D, ..); return D`) may be rewritten to create and return it (`h(T, ..)`: `D = T(); ...; return D`,
@@ -385,6 +515,48 @@ class Program:
                 fb = fn.body
                 own = [n for n in self._walk_own(fn)]
                 rets = [n for n in own if isinstance(n, ast.Return)]
+                # mode B: the helper fills the object it is handed AND returns it (`return D`), callers use the returned value
+                doneB = False
+                for i, pn in enumerate(params):
+                    if cname is not None and i == 0:
+                        continue
+                    if not rets or not all(isinstance(r.value, ast.Name) and r.value.id == pn for r in rets) or not isinstance(fb[-1], ast.Return):
+                        continue
+                    if any(isinstance(n, ast.Name) and n.id == pn and isinstance(n.ctx, ast.Store) and
+                           not any(isinstance(q, ast.AugAssign) and q.target is n for q in ast.walk(fn)) for n in ast.walk(fn)):
+                        continue        # the parameter is rebound: what is returned need not be the argument
+                    sites = self._factory_call_sites(fn.name, i, cname)
+                    if sites is None:
+                        continue
+                    fn.body = fb[:-1] or [ast.Pass()]
+                    for r in rets:
+                        r.value = None
+                    for owner, field, idx, st, call, ai in sites:
+                        lst = getattr(owner, field)
+                        e = call.args[ai]
+                        nm = e.id if isinstance(e, ast.Name) else ('_made' if isinstance(st, ast.Return) else st.targets[0].id)
+                        new = []
+                        if not isinstance(e, ast.Name):
+                            new.append(ast.Assign(targets=[ast.Name(id=nm, ctx=ast.Store())], value=e))
+                            call.args[ai] = ast.Name(id=nm, ctx=ast.Load())
+                        new.append(ast.Expr(value=call))
+                        if isinstance(st, ast.Return):
+                            new.append(ast.Return(value=ast.Name(id=nm, ctx=ast.Load())))
+                        elif isinstance(e, ast.Name) and st.targets[0].id != nm:
+                            new.append(ast.Assign(targets=[ast.Name(id=st.targets[0].id, ctx=ast.Store())], value=ast.Name(id=nm, ctx=ast.Load())))
+                        for x in new:
+                            ast.copy_location(x, st)
+                            ast.fix_missing_locations(x)
+                        k = next(j for j, y in enumerate(lst) if y is st)
+                        lst[k:k + 1] = new
+                    for mm in self.modules.values():
+                        for n_ in ast.walk(mm.tree):
+                            for c_ in ast.iter_child_nodes(n_):
+                                c_._parent = n_
+                    doneB = True
+                    break
+                if doneB:
+                    continue
                 for i, pn in enumerate(params):
                     if cname is not None and i == 0:
                         continue
